@@ -2,13 +2,14 @@ package hvxpacket
 
 import (
 	"fmt"
+	"strings"
 
 	"verifharness/hv"
 )
 
 // weights of the schedule's actions, per generator class
 type weights struct {
-	send, ctl, jump, next, dup, mut, refl, junk, write, sctl, cls, read, roam int
+	send, ctl, jump, next, dup, mut, refl, junk, write, sctl, cls, read, roam, ljunk int
 }
 
 var classes = map[string]weights{
@@ -27,6 +28,10 @@ var classes = map[string]weights{
 	// byte-exact class: the Coq checker runs the Kravatte-SANSE model itself (no AEAD oracle inputs);
 	// both directions, tampered copies, control, roaming; few packets per case
 	"byte-exact": {send: 22, ctl: 3, next: 22, dup: 8, mut: 16, refl: 6, junk: 4, write: 18, sctl: 2, read: 8, roam: 4},
+	// the endpoint's real receive loop runs (Serve / listen): everything of "mixed" plus what only the loop decides
+	// about (message-type dispatch, length guards, datagrams longer than the receive buffer)
+	"loop-mixed": {send: 20, ctl: 3, jump: 2, next: 18, dup: 10, mut: 14, refl: 6, junk: 6, ljunk: 24, write: 8, sctl: 2, cls: 1, read: 10, roam: 4},
+	"loop-roam":  {send: 22, next: 28, dup: 10, mut: 12, junk: 4, ljunk: 18, write: 22, read: 8, roam: 12},
 	// everything
 	"mixed": {send: 22, ctl: 3, jump: 3, next: 18, dup: 12, mut: 18, refl: 8, junk: 6, write: 10, sctl: 2, cls: 1, read: 12, roam: 5},
 }
@@ -147,14 +152,14 @@ func (s *sim) junk() ([]byte, string) {
 }
 
 func runCase(r *hv.Rand, prop, class string, idx int) {
-	s := newSim(r, prop, class, -1)
+	s := newSimL(r, prop, class, -1, strings.HasPrefix(class, "loop-"))
 	w := classes[class]
 	sizes := msgSizes
 	if class == "byte-exact" {
 		s.exact = true
 		sizes = exactSizes
 	}
-	total := w.send + w.ctl + w.jump + w.next + w.dup + w.mut + w.refl + w.junk + w.write + w.sctl + w.cls + w.read + w.roam
+	total := w.send + w.ctl + w.jump + w.next + w.dup + w.mut + w.refl + w.junk + w.write + w.sctl + w.cls + w.read + w.roam + w.ljunk
 	next := make([]int, len(s.fs)) // per session: index into its in-order list
 	inorder := func(i int) []*dg {
 		var l []*dg
@@ -273,6 +278,9 @@ func runCase(r *hv.Rand, prop, class string, idx int) {
 		case pick(w.junk):
 			b, lab := s.junk()
 			s.feed(b, src(i, false), lab)
+		case pick(w.ljunk):
+			b, pad, from, lab := s.loopJunk(i)
+			s.feedX(b, pad, from, lab)
 		case pick(w.write):
 			k := kWM
 			if r.Bool() {
@@ -310,6 +318,9 @@ func runCase(r *hv.Rand, prop, class string, idx int) {
 		}
 	}
 	s.finish()
+	if s.loop {
+		s.stopLoop()
+	}
 	s.emit(idx)
 }
 
@@ -342,6 +353,11 @@ func Run(prop string) {
 			runCase(r, prop, order[k%len(order)], idx)
 			idx++
 		}
+		for k := 0; k < hv.Scale(150, 3000); k++ {
+			runCase(r, prop, "loop-mixed", idx)
+			idx++
+		}
+		sizeConstants()
 	} else {
 		r = hv.NewRand(hv.Seed() ^ 0xC15)
 		roamUDP(r)
@@ -353,6 +369,10 @@ func Run(prop string) {
 		n := hv.Scale(400, 8000)
 		for k := 0; k < n; k++ {
 			runCase(r, prop, order[k%len(order)], idx)
+			idx++
+		}
+		for k := 0; k < hv.Scale(80, 1500); k++ {
+			runCase(r, prop, "loop-roam", idx)
 			idx++
 		}
 	}
